@@ -932,21 +932,6 @@ theorem deliver_spec : ∀ (fired : List Fired) (s s' : St W) (evs : List Event)
               intro e; exact hnotin (e ▸ List.mem_map.2 ⟨g, hg, rfl⟩)
             simp [upd, hne]
 
-theorem notify_slot_pending (ks : Keys) (id : Id) (r : Res) (x : Id) (w : Option WakerId)
-    (h : (ks.notify id r).slot x = .pending w) : ks.slot x = .pending w := by
-  by_cases hx : x = id
-  · subst hx
-    cases hs : ks.slot x with
-    | free => simp [Keys.notify, Keys.storeResult, hs, Slot.store] at h
-    | ready r' => simp [Keys.notify, Keys.storeResult, hs, Slot.store] at h
-    | pending w' =>
-      have := (notify_pending ks x r w' hs).1
-      rw [this] at h; simp at h
-  · rw [(notify_frame ks id r x hx).1] at h; exact h
-
-/-- draining a whole channel -/
-def notifyAll (ks : Keys) (chan : List (Id × Res)) : Keys := chan.foldl (fun ks e => ks.notify e.1 e.2) ks
-
 theorem pollCompleted_eq (s : St W) :
     pollCompleted s = ({ s with chan := [], keys := notifyAll s.keys s.chan }, !s.chan.isEmpty) := by
   unfold pollCompleted notifyAll
@@ -959,25 +944,6 @@ theorem pollCompleted_eq (s : St W) :
     | cons e rest ih => intro acc; simp only [List.foldl_cons]; rw [ih]
   rw [this]
 
-theorem kinv_notifyAll {queued : Id → Prop} {pool : List Id} : ∀ (chan : List (Id × Res)) (ks : Keys),
-    KInv ks chan queued pool → KInv (notifyAll ks chan) [] queued pool := by
-  intro chan
-  induction chan with
-  | nil => intro ks h; exact h
-  | cons e rest ih =>
-    intro ks h
-    obtain ⟨id, r⟩ := e
-    exact ih _ h.notifyHead
-
-theorem notifyAll_slot_pending : ∀ (chan : List (Id × Res)) (ks : Keys) (x : Id) (w : Option WakerId),
-    (notifyAll ks chan).slot x = .pending w → ks.slot x = .pending w := by
-  intro chan
-  induction chan with
-  | nil => intro ks x w h; exact h
-  | cons e rest ih =>
-    intro ks x w h
-    exact notify_slot_pending ks e.1 e.2 x w (ih _ x w h)
-
 theorem inv_pollCompleted {pend : Fd → Prop} {s : St W} (h : Inv pend s) : Inv pend (pollCompleted s).1 := by
   rw [pollCompleted_eq]
   refine ⟨h.q.congr rfl rfl (fun _ _ => rfl) rfl rfl ?_, ?_⟩
@@ -986,7 +952,7 @@ theorem inv_pollCompleted {pend : Fd → Prop} {s : St W} (h : Inv pend s) : Inv
     exact ⟨⟨w, notifyAll_slot_pending _ _ x w hw⟩, ht, hc⟩
   · have hq : queuedP ({ s with chan := [], keys := notifyAll s.keys s.chan } : St W) = queuedP s := queuedP_congr rfl
     rw [hq]
-    exact kinv_notifyAll _ _ h.k
+    exact kinv_notifyAll _ _ (by simpa using h.k)
 
 end
 
